@@ -1498,3 +1498,20 @@ benign("a8-reset-with-clear", ["C10"], [(M, '''        self.__capabilities = {}
         self.__read_buffer = b""
 
         if not self.__get_capabilities():''')])
+
+seeded("q8-ok-literal-unread", ["C09", "C15", "C17"], "Q8", [(M, '''                elif m.group(2) is not None:
+                    # the text of an OK reply may be sent as a literal too
+                    tail = self.__error_expr.match(m.group(2))
+                    if tail.group(2) is not None:
+                        msize = self.__size_expr.match(tail.group(2))
+                        if msize is not None:
+                            self.__read_block(int(msize.group(1)) + 2)
+''', '''''')], "the defect repaired by the fix: commit `consume a literal sent with an OK reply`")
+
+benign("g10-completion-refuses-incomplete", ["C20"], [(P, '''            if not self.__check_command_completion(testsemicolon=False):
+                return False
+            self.__curcommand.complete_cb()''', '''            if not self.__curcommand.iscomplete():
+                return False
+            if not self.__check_command_completion(testsemicolon=False):
+                return False
+            self.__curcommand.complete_cb()''')], "the repaired shape of the recorded finding G10 (breaks the pinned `reject;` tests, hence not committed): the check must be silent on it")
